@@ -3293,7 +3293,7 @@ func r088(c *Ctx, r *R) {
 	// snapshot keys
 	if m := c.fn(r, "state/dsstate", "State.Marshal"); m != nil {
 		ok := false
-		instrs(m, func(i ssa.Instruction) {
+		instrsDeep(m, func(i ssa.Instruction) { // also in a helper that encodes the results
 			st, isSt := i.(*ssa.Store)
 			if !isSt {
 				return
@@ -3516,13 +3516,13 @@ func r048(c *Ctx, r *R) {
 			if fl == nil || (fl.Name() != "ReplicationFactorMin" && fl.Name() != "ReplicationFactorMax") {
 				return
 			}
-			fromCfg := false
-			for _, l := range phiLeaves(st.Val) {
-				if cf, _ := fieldLoad(l); cf != nil && cf.Name() == fl.Name() && strings.HasSuffix(cf.Pkg().Path(), "ipfs-cluster") {
-					fromCfg = true
+			var cfgLeaves []RetLeaf
+			for _, lf := range valueLeaves(st.Val, st.Block()) {
+				if cf, _ := fieldLoad(lf.Val); cf != nil && cf.Name() == fl.Name() && strings.HasSuffix(cf.Pkg().Path(), "ipfs-cluster") {
+					cfgLeaves = append(cfgLeaves, lf)
 				}
 			}
-			if !fromCfg {
+			if len(cfgLeaves) == 0 {
 				return
 			}
 			n++
@@ -3537,7 +3537,15 @@ func r048(c *Ctx, r *R) {
 				xf, _ := fieldLoad(x)
 				return xf != nil && xf.Name() == fl.Name()
 			}
-			r.Check(mustPass(st.Block(), own), "default-per-factor:"+fl.Name(), st.Pos(), fl.Name()+" is replaced by the cluster default only when the request left it unset", "setupReplicationFactor replaces "+fl.Name()+" by the cluster default on a path where the request had set it (the test is on the other factor): a requested factor is silently discarded, and a pair that must be refused is validated as the configured pair")
+			okOwn := true
+			for _, lf := range cfgLeaves {
+				// the default arrives over an edge taken because this very
+				// factor was unset (the store itself may be unconditional)
+				if !lf.GuardedBy(own) && !mustPass(st.Block(), own) {
+					okOwn = false
+				}
+			}
+			r.Check(okOwn, "default-per-factor:"+fl.Name(), st.Pos(), fl.Name()+" is replaced by the cluster default only when the request left it unset", "setupReplicationFactor replaces "+fl.Name()+" by the cluster default on a path where the request had set it (the test is on the other factor): a requested factor is silently discarded, and a pair that must be refused is validated as the configured pair")
 		})
 		if n == 0 {
 			r.Und("default-per-factor", f.Pos(), "setupReplicationFactor stores no cluster default into the pin: shape not recognised")
